@@ -159,6 +159,25 @@ for _p in ('C05', 'C06', 'C17'):
     PROPS[_p]['streams'] = PROPS[_p]['streams'] + [WITNESS_STREAM]
 for _p in ('C19', 'C06'):
     PROPS[_p]['streams'] = PROPS[_p]['streams'] + [GRAPH_WITNESS_STREAM]
+# the concurrent clauses of the container properties: the schedule-forced stream (M6 replays the same schedule)
+# and the -race stress stream also decide them; their monitors are tagged with these ids
+CONC_CLAUSES = {
+    'C01': ['C01_table_stable_conc'],
+    'C02': ['C02_one_per_scope_conc', 'C02_one_write_conc', 'C02_failed_ctor_caches_nothing'],
+    'C10': ['C10_exactly_once_conc', 'C10_not_early_conc'],
+    'C12': ['C12_idempotent_conc', 'C12_child_error_collected_conc'],
+    'C13': ['C13_overlap', 'C13_singleton_overlap_reports_disposed'],
+    'C14': ['C14_no_stale_child_in_provider_table', 'C14_no_stale_child_when_idle'],
+}
+for _p, _names in CONC_CLAUSES.items():
+    PROPS[_p]['streams'] = PROPS[_p]['streams'] + [CONC_STREAM, CONC_STRESS_STREAM]
+    PROPS[_p]['generators'] = PROPS[_p].get('generators', []) + [LOCKFACTS_GEN]
+    # theorems about every interleaving (M6), stated in GodiProofs/Conc/Clauses.lean, audited with the property
+    PROPS[_p]['extra_theorems'] = {'GodiProofs.Conc.Clauses': ['Godi.Conc.' + n for n in _names]}
+    PROPS[_p].setdefault('assumptions', [])
+    PROPS[_p]['assumptions'] = PROPS[_p]['assumptions'] + [
+        'concurrent clause: M6 (GodiModel/Conc.lean) assumes the Go memory model at action granularity; its tie to the source '
+        'is the lock-fact extractor and the schedule-forced conc stream of C09 (the -race stress stream looks for what M6 cannot express)']
 
 
 def streams(prop):
